@@ -200,6 +200,7 @@ struct Sim {
       std::string svc = r.port ? std::to_string(r.port) : ""; if (r.port) hints.ai_flags |= ARES_AI_NUMERICSERV;
       ares_getaddrinfo(ch, r.name.c_str(), r.port ? svc.c_str() : nullptr, &hints, cb_addrinfo, arg);
     } else if (r.kind == "gethostbyname") ares_gethostbyname(ch, r.name.c_str(), r.family, cb_host, arg);
+    else if (r.kind == "hostsfile") { struct hostent *h = nullptr; int st = ares_gethostbyname_file(ch, r.name.c_str(), r.family == AF_INET6 ? AF_INET6 : AF_INET, &h); cb_host(arg, st, 0, h); if (h) ares_free_hostent(h); }   // synchronous sibling of gethostbyname: hosts file and loopback rule only
     else if (r.kind == "gethostbyaddr") { Bytes a = req_addr(r); ares_gethostbyaddr(ch, a.data(), (int)a.size(), r.family == AF_INET6 ? AF_INET6 : AF_INET, cb_host, arg); }
     else if (r.kind == "getnameinfo") {
       struct sockaddr_storage ss; memset(&ss, 0, sizeof ss); Bytes a = req_addr(r); ares_socklen_t sl;
